@@ -298,7 +298,7 @@ func parent(c *vf.Ctx) {
 		c.Count("evaluations", 0)
 		return
 	}
-	c.SetRule("a run drives one real timed.Queue / Executor / TaskExecutor: either a scripted gated schedule (re-schedule an identifier while its callback is held at a gate; Cancel(id) while the callback is held; Cancel while a worker is parked in Poll's select holding the element, before and after Shutdown; Cancel of an element in the heap; size bound filled without a poller; every Shutdown flag combination with pending elements) or a seeded random history (1-4 clients x 3-8 operations: Add/ExecuteAt with offsets -5..+40 ms, element Cancel, Cancel(id), gate openings, jitter; 1-4 workers; max size 0/2/5; every flag combination; Shutdown after or concurrent with the clients). evaluations = scheduled elements whose whole life was checked at structural quiescence; distinct_nontrivial = distinct (scenario, kind, workers, max size, flags, clients, shutdown mode, observed windows) of runs in which at least one element was delivered or prevented")
+	c.SetRule("a run drives one real timed.Queue / Executor / TaskExecutor: either a scripted gated schedule (re-schedule an identifier while its callback is held at a gate; Cancel(id) while the callback is held; Cancel while a worker is parked in Poll's select holding the element, before and after Shutdown; Cancel of an element in the heap; size bound filled without a poller; every Shutdown flag combination with pending elements) or a seeded random history (1-4 clients x 3-8 operations: Add/ExecuteAt with offsets -5..+40 ms, element Cancel, Cancel(id), gate openings, jitter; 1-4 workers; max size 0/2/5; every flag combination; Shutdown after or concurrent with the clients), plus timer-free stress histories for one window (2-4 clients adding due elements back to back while client 0 calls Shutdown). evaluations = scheduled elements whose whole life was checked at structural quiescence; distinct_nontrivial = distinct (scenario, kind, workers, max size, flags, clients, shutdown mode, observed windows) of runs in which at least one element was delivered or prevented")
 	scripts := len(scriptList())
 	nPlain := c.Pick(2400, 32000)
 	nRace := c.Pick(1200, 16000)
@@ -325,14 +325,19 @@ func parent(c *vf.Ctx) {
 	par := max(2, min(8, runtime.NumCPU()/2))
 	vf.Parallel(len(jobs), par, func(i int) {
 		j := jobs[i]
-		// watchdog: a run normally takes ~0.1 s (bounded by the 60 ms timers); 3 s per run + 60 s is > 10x
-		res := c.RunChild(vf.ChildOpts{Name: j.name, Args: j.args, Race: j.race, Timeout: time.Duration(j.runs)*3*time.Second + time.Minute})
+		// watchdog, > 10x the normal duration: a scripted or random run takes <= ~0.1 s (bounded by its 40-60 ms timers), a stress run ~5 ms
+		perRun := time.Second
+		if j.name == "stress" {
+			perRun = 100 * time.Millisecond
+		}
+		res := c.RunChild(vf.ChildOpts{Name: j.name, Args: j.args, Race: j.race, Timeout: time.Duration(j.runs)*perRun + time.Minute})
 		handle(c, j, res)
 	})
 	flushObs(c)
 	c.SetExhaustive(false)
 	c.Require("evaluations", c.Pick(30000, 400000))
 	c.Require("scripted_runs", 2*scripts)
+	c.Require("add_vs_shutdown_stress_runs", c.Pick(4000, 60000))
 	c.Require("runs_race_build", c.Pick(1200, 16000))
 	c.Require("pattern:gated:resched-during-callback", 12)
 	c.Require("pattern:gated:cancel-during-callback", 6)
@@ -392,7 +397,7 @@ func replay(c *vf.Ctx) {
 	}
 	for _, race := range []bool{h.Race, !h.Race} {
 		j := job{"one", []string{strconv.Itoa(reps)}, race, reps}
-		res := c.RunChild(vf.ChildOpts{Name: "one", Args: j.args, Race: race, Stdin: b, Timeout: time.Duration(reps)*3*time.Second + time.Minute})
+		res := c.RunChild(vf.ChildOpts{Name: "one", Args: j.args, Race: race, Stdin: b, Timeout: time.Duration(min(reps, 200))*time.Second + time.Minute})
 		handle(c, j, res)
 		if c.Violations() > 0 {
 			break
